@@ -71,6 +71,28 @@ pub fn same_function<L: Tab>(what: &str, r: &L, model: &TT) -> Verdict {
     if !wf(r) {
         return fail(format!("{}: well-formed block view of {}", what, show_tt(model)), show(r));
     }
+    if model.n > 8 {
+        // large tables: the block view must equal the model's encoding, and value() is read
+        // on boundary assignments (value() <-> block view on all assignments is C02's check)
+        if r.t_blocks() != &model.w[..] {
+            let m = (0..model.bits()).find(|m| ((r.t_blocks()[m >> 6] >> (m & 63)) & 1 != 0) != model.get(*m)).unwrap();
+            return fail(format!("{}: {} (value {} on assignment {})", what, show_tt(model), model.get(m), m), format!("{} (bit {} of the block view is {})", show(r), m, !model.get(m)));
+        }
+        let nb = model.bits();
+        let probe = guarded(|| {
+            for m in [0, 1, 63, 64, 65, nb / 2 - 1, nb / 2, nb - 65, nb - 64, nb - 2, nb - 1] {
+                if r.t_value(m) != model.get(m) {
+                    return Some(m);
+                }
+            }
+            None
+        });
+        return match probe {
+            Ok(None) => Ok(()),
+            Ok(Some(m)) => fail(format!("{}: value {} on assignment {}", what, model.get(m), m), format!("{} (value {} on assignment {})", show(r), !model.get(m), m)),
+            Err(p) => fail(format!("{}: {}", what, show_tt(model)), format!("value() {}", p)),
+        };
+    }
     let vals = guarded(|| abs_by_value(r));
     match vals {
         Err(p) => fail(format!("{}: {}", what, show_tt(model)), format!("value() {}", p)),
